@@ -138,7 +138,8 @@ class GeluPlugin(PrimitiveLeafPlugin):
         ) -> Callable[..., ArrayLike]:
             if orig is None:
                 raise RuntimeError("Original jax.nn.gelu not found")
-            return lambda *args, **kwargs: cls._PRIM.bind(*args, **kwargs)
+            # the hyper-parameter is a keyword of the primitive, however it was passed
+            return lambda x, approximate=True: cls._PRIM.bind(x, approximate=approximate)
 
         return [
             AssignSpec("jax.nn", "gelu_p", cls._PRIM, delete_if_missing=True),
